@@ -17,8 +17,87 @@ import (
 	"go.opentelemetry.io/collector/consumer/consumererror"
 	"go.opentelemetry.io/collector/exporter/exporterhelper/internal/experr"
 	"go.opentelemetry.io/collector/pdata/plog"
+	"go.opentelemetry.io/collector/pdata/pmetric"
 	"go.opentelemetry.io/collector/pdata/ptrace"
 )
+
+// the signal whose request is being retried in this case (0 logs, 1 traces, 2 metrics): `D` nodes are partial errors of
+// THAT signal, `O` nodes of another one; the remainder is read with errors.As on that signal's error type
+var c05eSig int
+
+func c05eStr(ids []int) string {
+	if len(ids) == 0 {
+		return "e"
+	}
+	out := make([]string, len(ids))
+	for i, v := range ids {
+		out[i] = strconv.Itoa(v)
+	}
+	return strings.Join(out, ",")
+}
+
+func c05eTraces(ids []int) ptrace.Traces {
+	td := ptrace.NewTraces()
+	ss := td.ResourceSpans().AppendEmpty().ScopeSpans().AppendEmpty().Spans()
+	for _, id := range ids {
+		ss.AppendEmpty().SetName(strconv.Itoa(id))
+	}
+	return td
+}
+
+func c05eMetrics(ids []int) pmetric.Metrics {
+	md := pmetric.NewMetrics()
+	ms := md.ResourceMetrics().AppendEmpty().ScopeMetrics().AppendEmpty().Metrics()
+	for _, id := range ids {
+		ms.AppendEmpty().SetName(strconv.Itoa(id))
+	}
+	return md
+}
+
+func c05ePartial(sig int, base error, ids []int) error {
+	switch sig % 3 {
+	case 0:
+		return consumererror.NewLogs(base, c05eLogs(ids))
+	case 1:
+		return consumererror.NewTraces(base, c05eTraces(ids))
+	default:
+		return consumererror.NewMetrics(base, c05eMetrics(ids))
+	}
+}
+
+// c05eRemainder: what the signal's OnError reads off the chain ("-" = no partial error of this signal)
+func c05eRemainder(err error) string {
+	switch c05eSig {
+	case 0:
+		var le consumererror.Logs
+		if errors.As(err, &le) {
+			return c05eIDs(le.Data())
+		}
+	case 1:
+		var te consumererror.Traces
+		if errors.As(err, &te) {
+			var ids []int
+			ss := te.Data().ResourceSpans().At(0).ScopeSpans().At(0).Spans()
+			for i := 0; i < ss.Len(); i++ {
+				n, _ := strconv.Atoi(ss.At(i).Name())
+				ids = append(ids, n)
+			}
+			return c05eStr(ids)
+		}
+	default:
+		var me consumererror.Metrics
+		if errors.As(err, &me) {
+			var ids []int
+			ms := me.Data().ResourceMetrics().At(0).ScopeMetrics().At(0).Metrics()
+			for i := 0; i < ms.Len(); i++ {
+				n, _ := strconv.Atoi(ms.At(i).Name())
+				ids = append(ids, n)
+			}
+			return c05eStr(ids)
+		}
+	}
+	return "-"
+}
 
 func c05eLogs(ids []int) plog.Logs {
 	ld := plog.NewLogs()
@@ -79,10 +158,10 @@ func c05eGen(r *rand.Rand, depth int, enc *[]string) error {
 			tok = "D" + strings.Join(s, ",")
 		}
 		*enc = append(*enc, tok)
-		return consumererror.NewLogs(c05eGen(r, depth-1, enc), c05eLogs(ids))
+		return c05ePartial(c05eSig, c05eGen(r, depth-1, enc), ids)
 	case k < 8:
 		*enc = append(*enc, "O")
-		return consumererror.NewTraces(c05eGen(r, depth-1, enc), ptrace.NewTraces())
+		return c05ePartial(c05eSig+1+r.IntN(2), c05eGen(r, depth-1, enc), []int{4242})
 	case k < 9:
 		*enc = append(*enc, "S")
 		return experr.NewShutdownErr(c05eGen(r, depth-1, enc))
@@ -108,19 +187,16 @@ func TestVerifC05Errs(t *testing.T) {
 	for _, idx := range vCases(vN(3000)) {
 		r := vRand(idx)
 		var enc []string
+		c05eSig = idx % 3
 		err := c05eGen(r, 1+r.IntN(5), &enc)
-		out.Linef("case %d", idx)
+		out.Linef("case %d sig=%d", idx, c05eSig)
 		out.Linef("op err %s", strings.Join(enc, " "))
 		th := "-"
 		var tr throttleRetry
 		if errors.As(err, &tr) {
 			th = strconv.FormatInt(int64(tr.delay), 10)
 		}
-		rest := "-"
-		var le consumererror.Logs
-		if errors.As(err, &le) {
-			rest = c05eIDs(le.Data())
-		}
+		rest := c05eRemainder(err)
 		perm, sd := consumererror.IsPermanent(err), experr.IsShutdownErr(err)
 		out.Linef("obs cls perm=%d sd=%d th=%s rest=%s", vB(perm), vB(sd), th, rest)
 		// direct oracle: wrapping a classified error keeps the classification
@@ -132,6 +208,7 @@ func TestVerifC05Errs(t *testing.T) {
 			out.Linef("nt")
 		}
 		out.Linef("stat nodes %d", len(enc))
+		out.Linef("stat signal_%d 1", c05eSig)
 		out.Linef("end")
 	}
 }
